@@ -170,6 +170,12 @@ trait EncodingVersion: Sized {
         deserializer: &mut XTypesDeserializer<'a, E, Self>,
         dynamic_data: &mut DynamicData,
     ) -> XTypesResult<()>;
+
+    /// Serialization Rule (29) & (30) for unions
+    fn deserialize_appendable_union_type<'a, E: EndiannessRead>(
+        deserializer: &mut XTypesDeserializer<'a, E, Self>,
+        dynamic_data: &mut DynamicData,
+    ) -> XTypesResult<()>;
 }
 
 fn get_discriminator_id_as_i32(v: &DynamicData) -> XTypesResult<i32> {
@@ -365,6 +371,14 @@ impl EncodingVersion for EncodingVersion1 {
         dynamic_data: &mut DynamicData,
     ) -> XTypesResult<()> {
         deserializer.deserialize_fstruct_type(dynamic_data)
+    }
+
+    /// Extensibility APPENDABLE union, version 1 encoding: serialized as FINAL (no DHEADER)
+    fn deserialize_appendable_union_type<'a, E: EndiannessRead>(
+        deserializer: &mut XTypesDeserializer<'a, E, Self>,
+        dynamic_data: &mut DynamicData,
+    ) -> XTypesResult<()> {
+        deserializer.deserialize_funion_type(dynamic_data)
     }
 }
 
@@ -569,6 +583,15 @@ impl EncodingVersion for EncodingVersion2 {
     ) -> XTypesResult<()> {
         let _dheader = deserializer.deserialize_primitive_type::<u32>();
         deserializer.deserialize_fstruct_type(dynamic_data)
+    }
+
+    /// Extensibility APPENDABLE union, version 2 encoding: DHEADER followed by the FINAL form
+    fn deserialize_appendable_union_type<'a, E: EndiannessRead>(
+        deserializer: &mut XTypesDeserializer<'a, E, Self>,
+        dynamic_data: &mut DynamicData,
+    ) -> XTypesResult<()> {
+        let _dheader = deserializer.deserialize_primitive_type::<u32>()?;
+        deserializer.deserialize_funion_type(dynamic_data)
     }
 }
 
@@ -832,8 +855,7 @@ impl<'a, E: EndiannessRead, V: EncodingVersion> XTypesDeserializer<'a, E, V> {
             TypeKind::UNION => match descriptor.extensibility_kind {
                 ExtensibilityKind::Final => self.deserialize_funion_type(&mut dynamic_data)?,
                 ExtensibilityKind::Appendable => {
-                    let _dheader = self.deserialize_primitive_type::<u32>()?;
-                    self.deserialize_funion_type(&mut dynamic_data)?
+                    V::deserialize_appendable_union_type(self, &mut dynamic_data)?
                 }
                 ExtensibilityKind::Mutable => V::deserialize_munion_type(self, &mut dynamic_data)?,
             },
